@@ -24,7 +24,7 @@ import ast
 from ..callgraph import CallGraph
 from ..core import AnalysisError, RuleContext, need, norm, short
 from ..effects import Effects
-from ..model import FuncInfo
+from ..model import FuncInfo, walk_scope
 from ..roles import roles_for
 from ..suppressions import SHARED_WRITE_SUPPRESSIONS
 
@@ -53,6 +53,7 @@ def run(ctx: RuleContext):
     ctx.sub(check_thread_locals, ctx, r, "C06.1")
     ctx.sub(check_shared_writes, ctx, r, cg, "C06.2", "C06.3")
     ctx.sub(check_no_memo_tables, ctx, r, cg, "C06.4")
+    ctx.sub(check_no_call_time_closure_state, ctx, r)
 
 
 def check_thread_locals(ctx, r, tag):
@@ -291,3 +292,48 @@ def _keys_are_annotation_attributes(m, cg, f, pred) -> bool:
             if not (isinstance(x, ast.Name) and x.id == recv and isinstance(a, ast.Attribute)):
                 return False
     return True
+
+
+# ------------------------------------------------------------------------ C06.5
+_MUTATING_METHODS = {"append", "add", "update", "pop", "clear", "extend", "insert", "remove", "discard", "setdefault", "popitem", "appendleft", "__setitem__"}
+
+
+def check_no_call_time_closure_state(ctx, r):
+    """C06.5: the wrappers `jaxtyped` returns run on whatever thread calls the decorated function; an object created when the function
+    was *decorated* (a list / dict / flag cell in `jaxtyped`'s scope) and written by the wrappers at call time is state of the function,
+    shared by every thread that calls it -- a re-entrancy flag, a "first call" marker, a per-function cache of verdicts.  One thread's
+    call then changes what another thread's concurrent call of the same function does."""
+    m = ctx.model
+    w = r.wrappers()
+    n_fn = n_stores = 0
+    for f in list(w["wraps"]) + list(w["impl"]):
+        ctx.saw(f)
+        n_fn += 1
+        nonlocals = {nm for st in walk_scope(f.node) if isinstance(st, ast.Nonlocal) for nm in st.names}
+        for st in walk_scope(f.node):
+            root, what = None, None
+            tgts = st.targets if isinstance(st, ast.Assign) else [st.target] if isinstance(st, (ast.AugAssign, ast.AnnAssign)) else []
+            for t in tgts:
+                x = t
+                while isinstance(x, (ast.Subscript, ast.Attribute)):
+                    x = x.value
+                if isinstance(x, ast.Name) and (x is not t or x.id in nonlocals):
+                    root, what = x.id, short(st, 50)
+            if isinstance(st, ast.Call) and isinstance(st.func, ast.Attribute) and st.func.attr in _MUTATING_METHODS:
+                x = st.func.value
+                while isinstance(x, (ast.Subscript, ast.Attribute)):
+                    x = x.value
+                if isinstance(x, ast.Name):
+                    root, what = x.id, short(st, 50)
+            if root is None:
+                continue
+            b = m.resolve_name(f, root)
+            if b.kind != "freevar":
+                continue
+            n_stores += 1
+            ctx.bad("C06.5", f, st, f"`{what}` writes `{root}`, an object created when the function was decorated, from the per-call wrapper: it is shared by every thread that calls "
+                    "the decorated function, so a concurrent call on another thread sees (and is steered by) this call's state", construct=f"call-time write to decoration-time object {root}")
+    ctx.counters["wrapper_functions"] = n_fn
+    ctx.floor("C06.5", "wrapper_functions", 3)
+    if not n_stores:
+        ctx.ok("C06.5", "_decorator.jaxtyped", f"none of the {n_fn} per-call wrapper functions writes an object of the decorator's own scope")
